@@ -448,6 +448,19 @@ func runC06(tier string, r *Result) {
 		for _, m := range d.Members {
 			dd := &RIDL{Name: d.Name, Members: append(append([]RMember(nil), d.Members...), m)}
 			judge(render(pieces(dd), nil), "dupmember")
+			// the same name reused by a member of every other kind, placed first and last (one name space for all members)
+			for _, other := range []RMember{
+				{Kind: "type", Name: m.Name, Type: TStruct(F("q", T("int")))},
+				{Kind: "method", Name: m.Name, In: TStruct(), Out: TStruct()},
+				{Kind: "error", Name: m.Name, Type: TStruct(F("q", T("int")))},
+				{Kind: "error", Name: m.Name},
+			} {
+				if other.Kind == m.Kind {
+					continue
+				}
+				judge(render(pieces(&RIDL{Name: d.Name, Members: append(append([]RMember(nil), d.Members...), other)}), nil), "dupmember-crosskind")
+				judge(render(pieces(&RIDL{Name: d.Name, Members: append([]RMember{other}, d.Members...)}), nil), "dupmember-crosskind")
+			}
 		}
 		// trailing garbage
 		for _, g := range []string{"x", "(", ")", "§", "\x00", "type", "method F", "error", "->", "interface a.b"} {
